@@ -90,14 +90,14 @@ theorem occurrences_independent (ic : Option Ctx) (reg : List Ctx) (ign : Bool) 
   simp [List.getElem?_append_right, hk, Call.result]
 
 /-- DEFAULTS FOR UNMENTIONED: a parameter no item of the call mentions keeps the state it has in the registry
-    context (so it shows its declared default, `init_value`), and the context keeps its name. -/
+    context (so it shows its declared default, `init_value_nonlist`), and the context keeps its name. -/
 theorem defaults_for_unmentioned (k : Call) (j : Nat) (h : ∀ it ∈ k.items, j ∉ it.indices) :
     k.result.args[j]? = k.ctx.args[j]? ∧ k.result.name = k.ctx.name :=
   ⟨foldl_apply_args_ne k.items k.ctx j h, foldl_apply_name k.items k.ctx⟩
 
 /-- a freshly declared non-list parameter shows its declared default -/
 theorem fresh_arg_shows_default (sp : ArgSpec) (h : sp.kind ≠ .list) : (Arg.init sp).value = sp.default :=
-  init_value sp h
+  init_value_nonlist sp h
 
 /-- TYPED VALUES: what an admissible value-flag item stores — `str` verbatim, `int` as the integer, list appended. -/
 theorem typed_value (a a' : Arg) (v : Tok) (h : a.give v = some a') :
